@@ -89,7 +89,7 @@ def pkg_clauses(files):
     return names
 
 
-def build_unit(unit, wdir, race=False, prefixes=("",)):
+def build_unit(unit, wdir, race=False, prefixes=("",), fuzz=False):
     """unit = 'mod:pkg/path'. Only harness files whose name starts with one of
     `prefixes` (the property's own files plus shared_*) are compiled in, so a
     harness that stops compiling after an internal rename cannot take other
@@ -100,7 +100,7 @@ def build_unit(unit, wdir, race=False, prefixes=("",)):
                    if any(os.path.basename(f).startswith(p) for p in prefixes))
     if not files:
         raise RuntimeError("no harness files in " + hdir)
-    key = (mod + "_" + pkg).replace("/", "_") + ("_race" if race else "")
+    key = (mod + "_" + pkg).replace("/", "_") + ("_race" if race else "") + ("_fuzz" if fuzz else "")
     bdir = os.path.join(wdir, "build", key)
     os.makedirs(bdir, exist_ok=True)
     replace = {}
@@ -129,12 +129,15 @@ def build_unit(unit, wdir, race=False, prefixes=("",)):
     cmd = [go, "test", "-c", "-vet=off", "-overlay", ov, "-o", out]
     if race:
         cmd.append("-race")
+    if fuzz:
+        # coverage instrumentation for native fuzzing (without it `-test.fuzz` mutates blindly)
+        cmd.append("-fuzz=FuzzVerif")
     cmd.append("./" + pkg)
     t0 = time.time()
     p = subprocess.run(cmd, cwd=os.path.join(REPO, mod), env=env, stdout=subprocess.PIPE, stderr=subprocess.STDOUT, text=True)
     if p.returncode != 0 or not os.path.exists(out):
         raise RuntimeError("HARNESS-BUILD-FAILED unit=%s\n%s" % (unit, p.stdout[-6000:]))
-    log("built %s%s in %.1fs" % (unit, " (race)" if race else "", time.time() - t0))
+    log("built %s%s%s in %.1fs" % (unit, " (race)" if race else "", " (fuzz-instrumented)" if fuzz else "", time.time() - t0))
     return out
 
 
@@ -299,9 +302,10 @@ def merge_stats(procs):
 
 def fuzz_execs(out):
     m = re.findall(r"execs: (\d+) .*?new interesting: (\d+) \(total: (\d+)\)", out)
-    if not m:
-        return 0, 0
-    return int(m[-1][0]), int(m[-1][2])
+    if m:
+        return int(m[-1][0]), int(m[-1][2])
+    m = re.findall(r"execs: (\d+)", out)
+    return (int(m[-1]), 0) if m else (0, 0)
 
 
 def write_evidence(pid, tier, seed, prop, tests, procs, violations, wall, notes):
@@ -360,9 +364,16 @@ def prefixes_of(pid):
 
 def run_property(pid, tier, base_seed):
     prop = registry.PROPS[pid]
-    wdir = os.path.join(WORK, "%s-%s" % (pid, tier))
+    # one work directory per invocation, so concurrent runs of the same check cannot disturb each other
+    wdir = os.path.join(WORK, "%s-%s" % (pid, tier) if os.environ.get("VERIF_KEEP_WORK") else "%s-%s.%d" % (pid, tier, os.getpid()))
     shutil.rmtree(wdir, ignore_errors=True)
     os.makedirs(wdir, exist_ok=True)
+    for old in glob.glob(os.path.join(WORK, "C*-*.*")):  # leftovers of failed runs older than 6 h
+        try:
+            if time.time() - os.path.getmtime(old) > 6 * 3600:
+                shutil.rmtree(old, ignore_errors=True)
+        except OSError:
+            pass
     t0 = time.time()
     known, _fixed = load_known(pid)
     # ---- build
@@ -371,10 +382,12 @@ def run_property(pid, tier, base_seed):
     for spec in prop["tests"]:
         if tier == "quick" and spec.get("thorough_only"):
             continue
-        need.add((spec["unit"], bool(spec.get("race"))))
+        need.add((spec["unit"], bool(spec.get("race")), False))
+        if tier == "thorough" and spec.get("kind") == "fuzz" and spec.get("fuzz_secs", 0) > 0:
+            need.add((spec["unit"], False, True))
     try:
         with cf.ThreadPoolExecutor(max_workers=4) as ex:
-            futs = {ex.submit(build_unit, u, wdir, r, prefixes_of(pid)): (u, r) for (u, r) in sorted(need)}
+            futs = {ex.submit(build_unit, u, wdir, r, prefixes_of(pid), fz): ((u, r) if not fz else (u, "fuzz")) for (u, r, fz) in sorted(need)}
             for f in cf.as_completed(futs):
                 bins[futs[f]] = f.result()
     except RuntimeError as e:
@@ -395,7 +408,7 @@ def run_property(pid, tier, base_seed):
             stage_corpus(spec, cwd)
             procs.append(Proc(spec, 0, 0, 0, b, cwd, spec.get("timeout", 300), env_extra=env_extra))
             if tier == "thorough" and spec.get("fuzz_secs", 0) > 0:
-                fuzzers.append((spec, b))
+                fuzzers.append((spec, bins[(spec["unit"], "fuzz")]))
             continue
         checks = spec.get(tier, spec.get("quick", 100))
         shards = spec.get("shards", 1) if tier == "quick" else spec.get("shards_thorough", 8)
